@@ -39,6 +39,10 @@ func (s CacheStatus) ApplyTo(header http.Header) {
 	header.Set(CacheStatusHeader, s.Value)
 	if s.Legacy != "" {
 		header.Set(FromCacheHeader, s.Legacy)
+	} else {
+		// Not served from this cache: drop a value received from upstream
+		// (e.g. an origin that is itself behind such a cache).
+		header.Del(FromCacheHeader)
 	}
 }
 
